@@ -22,7 +22,7 @@ from .core import Check, run_tlc
 
 LEVEL = "model_checking"
 
-CLAUSES = ["C14.lossy", "C14.wrong_variant_with_discriminator", "C14.unmapped_guess", "C14.retry_after_mapped_failure", "C14.error_on_conforming", "C14.not_a_variant"]
+CLAUSES = ["C14.lossy", "C14.wrong_variant_with_discriminator", "C14.unmapped_guess", "C14.retry_after_mapped_failure", "C14.error_on_conforming", "C14.not_a_variant", "C14.history_dependent"]
 NAMES = ["Alpha", "Beta", "Gamma", "Delta"]
 DIGIT_NAMES = ["Pet1", "Pet2", "Pet3", "Pet4"]  # file pet_1.py, but the emitted get_mapping() imports .pet1
 FIELDS = ["a", "b", "c"]
@@ -32,12 +32,13 @@ FIELDS = ["a", "b", "c"]
 # (A) design check + scenario generation
 
 
-def mc_cfg(family: str, lo: int, hi: int) -> str:
+def mc_cfg(family: str, lo: int, hi: int, extra: bool = False) -> str:
     return f"""SPECIFICATION Spec
 CONSTANTS
  Family = "{family}"
  MinVars = {lo}
  MaxVars = {hi}
+ WithExtra = {"TRUE" if extra else "FALSE"}
 CHECK_DEADLOCK FALSE
 """
 
@@ -54,9 +55,15 @@ def locus_key(clause: str, loc: dict) -> str:
     return clause + " " + json.dumps({k: v for k, v in loc.items() if k != "pos"}, sort_keys=True)
 
 
-def design(chk: Check, family: str, lo: int, hi: int) -> list[dict]:
-    r = run_tlc(chk.scratch, "MC_Union", mc_cfg(family, lo, hi), coverage=True, workers=16, timeout=900)
-    tag = f"MC_Union[{family},{lo}..{hi}]"
+def is_extra(u: dict) -> bool:
+    return u["disc"]["mode"] == "multi" or any("rnul" in v["f"] for v in u["vars"])
+
+
+def design(chk: Check, family: str, lo: int, hi: int, extra: bool = False) -> list[dict]:
+    """extra: the run additionally emits the 2-variant unions of the "extra" family (required-nullable fields,
+    non-injective discriminator mappings) - callers split them off with is_extra()."""
+    r = run_tlc(chk.scratch, "MC_Union", mc_cfg(family, lo, hi, extra), coverage=True, workers=16, timeout=900)
+    tag = f"MC_Union[{family}{'+extra' if extra else ''},{lo}..{hi}]"
     chk.add_tlc(tag, r)
     chk.require(r.coverage.get("Emit", (0, 0))[1] > 0, f"vacuous design run: Emit never taken in {tag}")
     scen = r.printed.get("SCEN", [])
@@ -130,6 +137,7 @@ def judge(chk: Check, traces: list[dict], label: str, via: str) -> None:
         chk.cov["pairs_judged_on_real_code"] = chk.cov.get("pairs_judged_on_real_code", 0) + len(t["cases"])
         chk.cov[f"observations_{via}"] = chk.cov.get(f"observations_{via}", 0) + v["nobs"]
         chk.clause("C14.not_a_variant", v["nobs"])
+        chk.clause("C14.history_dependent", v["n_hist"])
         chk.clause("C14.lossy", v["n_value"])
         chk.clause("C14.error_on_conforming", v["n_value"])
         chk.clause("C14.wrong_variant_with_discriminator", v["n_disc_value"])
@@ -141,9 +149,11 @@ def judge(chk: Check, traces: list[dict], label: str, via: str) -> None:
             loc = dict(f["locus"])
             loc["pos"] = f["pos"]
             loc["via"] = via
+            if "fresh" in t:
+                loc["hist"] = True
             p = t["cases"][f["cid"] - 1]["p"]
             o = next(o for o in t["obs"] if o["cid"] == f["cid"] and o["pos"] == f["pos"])
-            chk.fail(f["clause"], loc, {"u": u, "payload": p, "pos": f["pos"], "via": via, "naming": t.get("_naming", "plain")}, f"observed {json.dumps({k: o[k] for k in ('out', 'chosen', 'ckind', 'ekind', 'reenc')})[:400]}")
+            chk.fail(f["clause"], loc, {"u": u, "payload": p, "pos": f["pos"], "via": via, "flavour": t.get("_flavour", "plain"), "hist": "fresh" in t}, f"observed {json.dumps({k: o[k] for k in ('out', 'chosen', 'ckind', 'ekind', 'reenc')})[:400]}")
         if v["drift"] and not t.get("_nodrift"):
             ndrift += len(v["drift"])
             if chk.cov.get("drift_reported", 0) < 3:
@@ -170,6 +180,27 @@ def replay_direct(chk: Check, scen: list[dict], label: str, all_positions_upto: 
     judge(chk, traces, label, "direct")
 
 
+def hist_vars(u: dict) -> list[dict]:
+    """The 'other client' of a history replay: same number of variants, same discriminator table and class names, but
+    every variant reduced to the discriminator property alone (an older API version with fewer properties)."""
+    return [{"k": "obj", "of": "-", "f": ["abs", "abs", "abs"]} for _ in u["vars"]]
+
+
+def replay_history(chk: Check, scen: list[dict], label: str) -> None:
+    """HistoryIndependent on the real converter: decode another union with an equal (property, value -> class NAME)
+    table first, through the same converter module, then this one; compare with the fresh-process outcome."""
+    if not scen:
+        return
+    jobs = direct_jobs(chk, scen, label, 2)
+    for j, d in zip(jobs, scen):
+        j["history"] = {"vars": hist_vars(d["u"])}
+    res = core.parallel_py(chk.scratch, "harness.w_union", jobs)
+    traces = []
+    for d, j, r in zip(scen, jobs, res):
+        traces.append({"id": j["id"], "u": d["u"], "cases": [{"cid": c["cid"], "p": c["payload"]} for c in j["cases"]], "obs": r["res"], "fresh": r["fresh"]})
+    judge(chk, traces, label, "direct")
+
+
 # ---- generated packages
 
 
@@ -189,7 +220,7 @@ def variant_schema(v: dict, i: int, names: list[str]) -> dict:
     raise ValueError(k)
 
 
-def union_doc(u: dict, how: str, names: list[str] = NAMES) -> dict:
+def union_doc(u: dict, how: str, names: list[str] = NAMES, kind_enum: bool = False) -> dict:
     """The one translation of an abstract union (UnionCodec.tla vocabulary) to an OpenAPI document: the union is the
     schema Pet, used as a response, as the property HolderF.u and as the items of HolderL.items."""
     disc = u["disc"]
@@ -202,11 +233,15 @@ def union_doc(u: dict, how: str, names: list[str] = NAMES) -> dict:
         req = []
         if prop:
             props[prop] = {"type": "string"}
+            if kind_enum:  # the variant declares its own discriminator values inline
+                props[prop]["enum"] = [tag for tag, vi in disc["mapping"] if vi == i + 1]
             req.append(prop)
         for fld, m in zip(FIELDS, v["f"]):
             if m != "abs":
                 props[fld] = {"type": "string"}
-            if m == "req":
+            if m == "rnul":
+                props[fld]["nullable"] = True
+            if m in ("req", "rnul"):
                 req.append(fld)
         node: dict[str, Any] = {"type": "object", "properties": props}
         if req:
@@ -233,18 +268,25 @@ def union_doc(u: dict, how: str, names: list[str] = NAMES) -> dict:
 
 
 def pick_generated(chk: Check, fams: dict[str, list[dict]], target: int) -> list[tuple[str, dict]]:
-    """A deterministic, stratified choice of unions to push through real generation: every 2-variant union of the
-    discriminator and mixed families first (by hash), then 3-variant ones, then object unions."""
+    """A deterministic, stratified choice of (flavour, scenario) to push through real generation."""
     quota = {"disc": target * 4 // 10, "mixed": target * 3 // 10, "obj": target - target * 4 // 10 - target * 3 // 10}
-    out = []
+    out: list[tuple[str, dict]] = []
+    rank = lambda scen: sorted(scen, key=lambda d: stable_hash(ukey(d["u"]), chk.seed))  # noqa: E731
     for fam, scen in fams.items():
-        if fam not in quota:
-            continue
-        ranked = sorted(scen, key=lambda d: stable_hash(ukey(d["u"]), chk.seed))
-        out += [(fam, d) for d in ranked[: quota[fam]]]
-        if fam == "disc":
-            # the same discriminated unions once more with schema names that contain digits (emitted module names differ)
-            out += [("disc-digit", d) for d in ranked[:8]]
+        if fam in quota:
+            ranked = rank(scen)
+            out += [("plain", d) for d in ranked[: quota[fam]]]
+            if fam == "disc":
+                # the same discriminated unions once more with schema names that contain digits (emitted module names differ)
+                out += [("digit", d) for d in ranked[:8]]
+                # two clients sharing one core package: complete mapping, decoded after the other client's union
+                out += [("hist", d) for d in [x for x in ranked if x["u"]["disc"]["mode"] == "complete"][: max(6, target // 30)]]
+        if fam == "extra":
+            multi = rank([d for d in scen if d["u"]["disc"]["mode"] == "multi"])
+            nul = rank([d for d in scen if d["u"]["disc"]["mode"] == "none"])
+            out += [("multi-enum", d) for d in multi[: max(10, target // 20)]]
+            out += [("multi-plain", d) for d in multi[:4]]
+            out += [("plain", d) for d in nul[: max(12, target // 15)]]
     return out
 
 
@@ -252,25 +294,40 @@ def replay_generated(chk: Check, picked: list[tuple[str, dict]], label: str) -> 
     if not picked:
         return
     root = chk.scratch.sub("gen_unions")
-    jobs = []
-    for j, (fam, d) in enumerate(picked):
+    jobs, pre = [], []
+    for j, (flavour, d) in enumerate(picked):
         how = "oneOf" if j % 2 == 0 else "anyOf"
-        jobs.append({"id": f"{label}#{j}", "root": str(root), "spec": union_doc(d["u"], how, DIGIT_NAMES if fam == "disc-digit" else NAMES), "pkg": f"u{j}.client", "force": True, "nopp": True})
+        u = d["u"]
+        doc = union_doc(u, how, DIGIT_NAMES if flavour == "digit" else NAMES, kind_enum=(flavour == "multi-enum"))
+        job = {"id": f"{label}#{j}", "root": str(root), "spec": doc, "pkg": f"u{j}.client", "force": True, "nopp": True}
+        if flavour == "hist":
+            # v1 and v2 of one API as two top-level client packages sharing one core package
+            job.update({"pkg": f"h{j}v2", "core": f"h{j}core"})
+            u1 = dict(u, vars=hist_vars(u))
+            pre.append({"id": f"{label}#{j}pre", "root": str(root), "spec": union_doc(u1, how), "pkg": f"h{j}v1", "core": f"h{j}core", "force": True, "nopp": True})
+        jobs.append(job)
+    pres = {r["id"]: r for r in core.parallel_py(chk.scratch, "harness.w_gen", pre)} if pre else {}
     gres = core.parallel_py(chk.scratch, "harness.w_gen", jobs)
     ojobs = []
-    for (fam, d), j, g in zip(picked, jobs, gres):
-        if not g["ok"]:
+    for (flavour, d), j, g in zip(picked, jobs, gres):
+        ok = g["ok"] and (flavour != "hist" or pres[j["id"] + "pre"]["ok"])
+        if not ok:
             chk.cov["not_generated"] = chk.cov.get("not_generated", 0) + 1
             if chk.cov["not_generated"] <= 2:
                 chk.note_drift(f"generation failed visibly for a union document ({g['errtype']}: {str(g['err'])[:160]}) - not judged")
             continue
-        nm = DIGIT_NAMES if fam == "disc-digit" else NAMES
+        nm = DIGIT_NAMES if flavour == "digit" else NAMES
         names = {nm[i]: i + 1 for i, v in enumerate(d["u"]["vars"]) if v["k"] == "obj"}
-        ojobs.append({"id": j["id"], "root": j["root"], "pkg": j["pkg"], "want": ["unions"], "alias": "Pet", "field_holder": "HolderF", "list_holder": "HolderL", "names": names, "cases": [{"cid": i + 1, "payload": c["p"]} for i, c in enumerate(d["cases"])]})
+        oj = {"id": j["id"], "root": j["root"], "pkg": j["pkg"], "want": ["unions"], "alias": "Pet", "field_holder": "HolderF", "list_holder": "HolderL", "names": names, "cases": [{"cid": i + 1, "payload": c["p"]} for i, c in enumerate(d["cases"])]}
+        if flavour == "hist":
+            prop = d["u"]["disc"]["prop"]
+            oj["core"] = j["core"]
+            oj["history"] = {"pkg": j["pkg"][:-1] + "1", "alias": "Pet", "payloads": [{"t": "o", "v": [{"k": prop, "v": {"t": "s", "v": tag}}]} for tag, _ in d["u"]["disc"]["mapping"]]}
+        ojobs.append(oj)
     chk.require(len(ojobs) > 0, "no union document could be generated")
     ores = {r["id"]: r for r in core.parallel_py(chk.scratch, "harness.w_obs", ojobs, env={"VERIF_OBS_EXTRA": "harness.w_unionobs"})}
     traces = []
-    for (fam, d), j in zip(picked, jobs):
+    for (flavour, d), j in zip(picked, jobs):
         o = ores.get(j["id"])
         if o is None:
             continue
@@ -283,8 +340,13 @@ def replay_generated(chk: Check, picked: list[tuple[str, dict]], label: str) -> 
             continue
         # the generator renders a typed inline map as dict[str, Any] (the fallback type), so the emitted alias is not the
         # union ImplChoose is evaluated on: the property-level judgement is unaffected, the model comparison is skipped
-        nodrift = any(v["k"] == "map" for v in d["u"]["vars"]) or fam == "disc-digit"
-        traces.append({"id": j["id"], "u": d["u"], "cases": [{"cid": i + 1, "p": c["p"]} for i, c in enumerate(d["cases"])], "obs": ob["res"], "_alias": ob["alias_repr"], "_nodrift": nodrift, "_naming": "digit" if fam == "disc-digit" else "plain"})
+        # (likewise for the flavours whose known generator defects make the emitted code differ from the model)
+        nodrift = any(v["k"] == "map" for v in d["u"]["vars"]) or flavour in ("digit", "multi-plain")
+        t = {"id": j["id"], "u": d["u"], "cases": [{"cid": i + 1, "p": c["p"]} for i, c in enumerate(d["cases"])], "obs": ob["res"], "_alias": ob["alias_repr"], "_nodrift": nodrift, "_flavour": flavour}
+        if flavour == "hist":
+            t["fresh"] = ob["fresh"]
+        traces.append(t)
+        chk.cov[f"generated_{flavour}"] = chk.cov.get(f"generated_{flavour}", 0) + 1
     chk.cov["generated_unions"] = chk.cov.get("generated_unions", 0) + len(traces)
     chk.require(len(traces) * 2 >= len(picked), f"only {len(traces)} of {len(picked)} generated union packages were observable")
     if traces:
@@ -313,7 +375,15 @@ def run(chk: Check) -> None:
         "the produced variant is identified by the class of the result (dataclass variants) or its Python kind (other variants)",
     ]
     fams: dict[str, list[dict]] = {}
-    fams["disc"] = design(chk, "disc", 2, 3)
+    if thorough:
+        fams["disc"] = design(chk, "disc", 2, 3)
+        fams["extra"] = design(chk, "extra", 2, 3)
+    else:
+        both = design(chk, "disc", 2, 3, extra=True)  # one TLC run: discriminator family + the 2-variant "extra" unions
+        fams["disc"] = [d for d in both if not is_extra(d["u"])]
+        fams["extra"] = [d for d in both if is_extra(d["u"])]
+    chk.require(any(d["u"]["disc"]["mode"] == "multi" for d in fams["extra"]) and any(d["u"]["disc"]["mode"] == "none" for d in fams["extra"]),
+                "extra family lacks non-injective mappings or required-nullable variants")
     fams["mixed"] = design(chk, "mixed", 2, 3)
     fams["obj"] = design(chk, "obj", 2, 3)
     if thorough:
@@ -332,6 +402,8 @@ def run(chk: Check) -> None:
             scen = [d for d in scen if len(d["u"]["vars"]) == 2 or stable_hash(ukey(d["u"]), chk.seed) % 3 == 0]
             chk.cov["exhaustive_replay"] = False
         replay_direct(chk, scen, fam, allpos)
+    hist = [d for d in fams["disc"] if d["u"]["disc"]["mode"] == "complete" and (thorough or len(d["u"]["vars"]) == 2)]
+    replay_history(chk, hist, "history")
     replay_generated(chk, pick_generated(chk, fams, 300 if thorough else 200), "generated")
     chk.cov["exhaustive"] = True
 
@@ -342,11 +414,16 @@ def replay(chk: Check, path: str) -> None:
     u, p = sc["u"], sc["payload"]
     d = {"u": u, "cases": [{"p": p}]}
     if sc.get("via") == "generated":
-        replay_generated(chk, [("disc-digit" if sc.get("naming") == "digit" else "replay", d)], "replay")
+        replay_generated(chk, [(sc.get("flavour", "plain"), d)], "replay")
     else:
         jobs = [{"id": "replay", "vars": u["vars"], "nullable": u["nullable"], "disc": u["disc"], "cases": [{"cid": 1, "payload": p}], "positions": [sc.get("pos", "top")]}]
+        if sc.get("hist"):
+            jobs[0]["history"] = {"vars": hist_vars(u)}
         res = core.parallel_py(chk.scratch, "harness.w_union", jobs)
         print("REPLAY-OBSERVED", json.dumps(res[0]["res"]))
-        judge(chk, [{"id": "replay", "u": u, "cases": [{"cid": 1, "p": p}], "obs": res[0]["res"]}], "replay", "direct")
+        t = {"id": "replay", "u": u, "cases": [{"cid": 1, "p": p}], "obs": res[0]["res"]}
+        if sc.get("hist"):
+            t["fresh"] = res[0]["fresh"]
+        judge(chk, [t], "replay", "direct")
     for f in chk.fails:
         print("REPLAY-FAIL", f["clause"], json.dumps(f["locus"]), f["detail"][:300])
